@@ -168,7 +168,9 @@ class Task:
             self.finish()
         except OSError:
             self.close_on_finish = True
-            if self.channel.adj.log_socket_errors:
+            # if nothing has been sent yet the caller can still answer with
+            # an error response; do not swallow the exception in that case
+            if self.channel.adj.log_socket_errors or not self.wrote_header:
                 raise
 
     @property
